@@ -348,6 +348,38 @@ Definition apply_op (r : roi) (o : op) : roi :=
   end.
 Definition apply_ops (r : roi) (ops : list op) : roi := fold_left apply_op ops r.
 
+(* ---------- tracked state: the region together with its position angle theta (cosine, sine) ----------
+   rotate_to is absolute: a polygon turns by theta_new - theta_old, so the angle is part of the state that copy() must carry.
+   copy() keeps everything; a save / restore keeps everything too except that a restored polygon starts again at theta = 0
+   (VertexROIBase saves the vertices only; glue's own test-suite pins `theta == 0` after the round trip). *)
+Definition tstate := (roi * (Q * Q))%type.
+Definition roi_theta (r : roi) : Q * Q :=
+  match r with Rect _ _ _ _ _ c s => (c, s) | Ellipse _ _ _ _ _ c s => (c, s) | _ => (1, 0) end.
+Definition tinit (r : roi) : tstate := (r, roi_theta r).
+Definition rot_compose (a b : Q * Q) : Q * Q := (Qred (fst a * fst b - snd a * snd b), Qred (snd a * fst b + fst a * snd b)).
+Definition rot_inverse (a : Q * Q) : Q * Q := (fst a, - snd a).
+Inductive top :=
+| TMove (t : pt)
+| TRotateTo (b : branch) (skip : bool) (c s : Q)      (* absolute position angle; skip = the code's isclose test on the difference *)
+| TToPolygon
+| TCopy
+| TRestore.
+Definition t_apply (st : tstate) (o : top) : tstate :=
+  let r := fst st in let th := snd st in
+  match o with
+  | TMove t => (move_to r t, th)
+  | TRotateTo b skip c s =>
+    match r with
+    | Poly _ => let d := rot_compose (c, s) (rot_inverse th) in (rotate_to r b skip (fst d) (snd d), (c, s))
+    | Rect _ _ _ _ _ _ _ | Ellipse _ _ _ _ _ _ _ => (rotate_to r b skip c s, (c, s))
+    | _ => st
+    end
+  | TToPolygon => match r with Rect _ _ _ _ _ _ _ => (to_polygon r, (1, 0)) | _ => st end
+  | TCopy => st
+  | TRestore => match r with Poly _ => (r, (1, 0)) | _ => st end
+  end.
+Definition t_apply_ops (st : tstate) (ops : list top) : tstate := fold_left t_apply ops st.
+
 (* ---------- wire ---------- *)
 Definition dec_q (t : tree) : Q :=
   match t with
@@ -377,6 +409,14 @@ Definition dec_op (t : tree) : op :=
   | T 2 [br; sk; cc; ss] => ORotate (dec_branch br) (dec_bool sk) (dec_q cc) (dec_q ss)
   | _ => OToPolygon
   end.
+Definition dec_top (t : tree) : top :=
+  match t with
+  | T 1 [a; b] => TMove (dec_q a, dec_q b)
+  | T 6 [br; sk; cc; ss] => TRotateTo (dec_branch br) (dec_bool sk) (dec_q cc) (dec_q ss)
+  | T 4 _ => TCopy
+  | T 5 _ => TRestore
+  | _ => TToPolygon
+  end.
 Definition enc_verdict (v : verdict) : tree :=
   leaf (match v with VOut => 0 | VIn => 1 | VNear => 2 end)%Z.
 Definition undefined_roi (r : roi) : bool :=
@@ -384,7 +424,7 @@ Definition undefined_roi (r : roi) : bool :=
 Definition dec_p3 (t : tree) : Q * Q * Q :=
   match t with T _ [a; b; c] => (dec_q a, dec_q b, dec_q c) | _ => (0, 0, 0) end.
 
-(* results: (0 (0 cx cy) (0 verdicts...)) ; (-1 code) on malformed input or an undefined region *)
+(* results: (0 (0 cx cy) (0 verdicts...) (0 cos_theta sin_theta)) ; (-1 code) on malformed input or an undefined region *)
 Definition run_case (t : tree) : tree :=
   match t with
   | T 1 [eps; r; T _ ops; T _ pts] =>
@@ -392,18 +432,20 @@ Definition run_case (t : tree) : tree :=
     | None => err 2
     | Some r0 =>
       if undefined_roi r0 then err 1 else
-      let r1 := apply_ops r0 (map dec_op ops) in
+      let st := t_apply_ops (tinit r0) (map dec_top ops) in
+      let r1 := fst st in
       let ctr := center r1 in
       let cl := classify (dec_q eps) r1 in
       T 0 [T 0 [enc_q (Qred (fst ctr)); enc_q (Qred (snd ctr))];
-           T 0 (map (fun p => enc_verdict (cl (dec_pt p))) pts)]
+           T 0 (map (fun p => enc_verdict (cl (dec_pt p))) pts);
+           T 0 [enc_q (Qred (fst (snd st))); enc_q (Qred (snd (snd st)))]]
     end
   | T 2 [eps; T _ m; r; T _ ops; T _ pts] =>
     match dec_roi r with
     | None => err 2
     | Some r0 =>
       if undefined_roi r0 then err 1 else
-      let r1 := apply_ops r0 (map dec_op ops) in
+      let r1 := fst (t_apply_ops (tinit r0) (map dec_top ops)) in
       let mm := map (fun row => map dec_q (kids row)) m in
       let cl := classify3d (dec_q eps) mm r1 in
       T 0 (map (fun p => enc_verdict (cl (dec_p3 p))) pts)
